@@ -9,7 +9,7 @@ R=/tmp/harmrepo-$ID; O=/tmp/harmout-$ID
 rm -rf $R $O && mkdir -p $R $O && rsync -a --exclude .git /repo/ $R/ && (cd $R && patch -s -p1 < $P) || { echo "$ID: patch does not apply"; rm -rf $R $O; exit 2; }
 (cd $R && go build ./... 2>&1 | head -3)
 dirs=$(grep '^+++ b/' $P | sed 's|^+++ b/||' | xargs -n1 dirname | sort -u)
-props=$(for d in $dirs; do grep -h '^//@   serves' /repo/$d/zz_verif_contracts.go 2>/dev/null | grep -o 'C[0-9][0-9]'; done | sort -u)
+props=$(for d in $dirs; do grep -h '^//@' /repo/$d/zz_verif_contracts.go 2>/dev/null | grep -ow 'C[0-9][0-9]'; done | sort -u)
 claimed=$(python3 -c "import json; print(' '.join(c['property_id'] for c in json.load(open('/verif/MANIFEST.json'))['checks']))")
 for p in $props; do
   case " $claimed " in *" $p "*) ;; *) continue;; esac
